@@ -57,7 +57,30 @@ abbrev PL := Op × P
 
 def linCfg : Cfg := { hot := false, granular := true }
 
-def sem (fl : Flavour) (cfg : Cfg) : LinCore.Sem St Op Res PL where
+/-- the part of the state future behaviour depends on (no ghost history) — memo key of the search -/
+structure Core where
+  buf : List Val
+  hs : List Handle
+  cnt : List Nat            -- sc, rc, unpub, kpub, inflight, tomb
+  flags : List Bool         -- rd, pd
+  os : OsState
+  sw : List (Nat × Nat × Val)
+  rw : List (Nat × Nat)
+  ws : List (List Nat)      -- rcanc, sdone, rdisc
+  sdisc : List (Nat × Val)
+  rdone : List (Nat × Val)
+  deriving DecidableEq, Hashable
+
+def St.core (s : St) : Core :=
+  ⟨s.buf, s.hs, [s.sc, s.rc, s.unpub, s.kpub, s.inflight, s.tomb], [s.rd, s.pd], s.os, s.sw, s.rw,
+   [s.rcanc, s.sdone, s.rdisc], s.sdisc, s.rdone⟩
+
+abbrev Key := Core × List (Nat × PL)
+
+instance : BEq Key := ⟨fun a b => decide (a = b)⟩
+
+def sem (fl : Flavour) (cfg : Cfg) : LinCore.Sem St Op Res PL Key where
+  key s pend := (s.core, pend)
   fresh t op := (op, .fresh t op)
   micro s p := (micro fl cfg s p.2).map (fun r => (r.1, (p.1, r.2)))
   retire s p := retire fl cfg s p.1
@@ -68,12 +91,13 @@ def History.fuel (h : History) : Nat :=
     | .call _ op => op.size + 6
     | .ret _ _ => 1) 8
 
-/-- final model state of some linearization of `h`, if there is one -/
-def linearize (fl : Flavour) (cfg : Cfg) (h : History) : Option St :=
-  LinCore.search (sem fl cfg) h.fuel (init fl) [] h
+/-- Final model state of some linearization of `h`, if there is one.  `quiesce`: the run ended with
+every unfinished thread blocked, so every operation that never returned must be disabled at the end. -/
+def linearize (fl : Flavour) (cfg : Cfg) (h : History) (quiesce : Bool := false) : Option St :=
+  (LinCore.search (sem fl cfg) quiesce h.fuel {} (init fl) [] h).1
 
-def linearizable (fl : Flavour) (cfg : Cfg) (h : History) : Bool :=
-  (linearize fl cfg h).isSome
+def linearizable (fl : Flavour) (cfg : Cfg) (h : History) (quiesce : Bool := false) : Bool :=
+  (linearize fl cfg h quiesce).isSome
 
 /-- length of the shortest non-linearizable prefix (histories are prefix-closed w.r.t. linearizability) -/
 def shortestBadPrefix (fl : Flavour) (cfg : Cfg) (h : History) : Nat :=
